@@ -1021,6 +1021,7 @@ func (e *endpoint) Poll(ctx context.Context) error {
 // scan is the internal function which performs a scan operation on the root and
 // updates the endpoint scan parameters. The caller must hold the scan lock.
 func (e *endpoint) scan(ctx context.Context, baseline *core.Snapshot, recheckPaths map[string]bool) error {
+	e.verifScanInputs(baseline, recheckPaths)
 	// Perform a full (warm) scan, watching for errors.
 	snapshot, newCache, newIgnoreCache, err := core.Scan(
 		ctx,
